@@ -70,6 +70,9 @@ def rule_wfloat(bodies):
         for c in b.live_calls:
             nme = c.rdef or c.callee or ''
             if DENY.search(nme) or DENY.search(c.callee or ''):
+                import r_nowrap
+                if getattr(b, 'orig_id', b.id) in r_nowrap.UNDOCUMENTED_HANDLER_BODIES and re.search(r'::(round\w*|trunc\w*|floor|ceil|fract|rescale|normalize)$', nme):
+                    continue      # a rounding *function* the user calls by name (added feature), not the arithmetic of the language
                 k = cnt.get(nme, 0); cnt[nme] = k + 1
                 n += 1
                 obs.append(bad('WFLOAT', 'WFLOAT|call|%s|%s|#%d' % (b.name, nme, k), '%s on the number path: rounds / rescales / goes through binary floating point' % nme, c.where(), body=b.name, bb=c.bb))
